@@ -84,7 +84,7 @@ class Site:
         self.sid, self.kind, self.placement, self.tyname, self.decls, self.body, self.expected, self.sig = sid, kind, placement, tyname, decls, body, expected, sig
 
 
-def gen_sites(tier, seed):
+def gen_sites(tier, seed, accepted_pairs=None):
     rng = C.Rng(seed, 2)
     types = make_types(tier)
     sites = []
@@ -199,6 +199,40 @@ def gen_sites(tier, seed):
             mutf = (f"mut_{tn} :: (p: {t.name}) -> {t.name} {{ q := p; q.{fld} = 2; q }}" if "[3]" not in t.decl.split(fld + ":")[1].split(",")[0]
                     else f"mut_{tn} :: (p: {t.name}) -> {t.name} {{ q := p; q.{fld}[2] = 2; q }}")
             new("mutating_a_copy", "copy_semantics", t, base_decls + [mutf], b_cs)
+            # a cast that changes no bytes (structurally identical twin struct, distinct wrapper) still makes a copy
+            twin = t.decl.replace(f"{t.name} ::", f"TW_{tn} ::", 1)
+            dist = f"DW_{tn} :: distinct {t.name};"
+            is_arr_fld = "[3]" in t.decl.split(fld + ":")[1].split(",")[0]
+            setf = (lambda v, who, fld=fld, is_arr_fld=is_arr_fld: f"{who}.{fld}[2] = {v};" if is_arr_fld else f"{who}.{fld} = {v};")
+
+            def b_cast(st, pr, t=t, sa=seed_a, sb=seed_b, tn=tn, setf=setf):
+                st(f"o := {t.lit(sa)};")
+                st(f"c := TW_{tn}.(o);")
+                st(setf(1, "c"))
+                rb_all(pr, "o", sa)          # writing the cast copy leaves the original alone
+                st(f"o2 := {t.lit(sb)};")
+                st(f"e := TW_{tn}.(o2);")
+                st(setf(3, "o2"))
+                rb_all(pr, "e", sb)          # writing the original leaves the cast copy alone
+                st(f"o3 := {t.lit(sa)};")
+                st(f"d := DW_{tn}.(o3);")
+                st(setf(5, "o3"))
+                st(f"back := {t.name}.(d);")
+                rb_all(pr, "back", sa)
+            new("mutating_a_cast_copy", "copy_semantics", t, base_decls + [twin, dist], b_cast)
+        else:
+            # arrays: a copy made by casting a slice of the array back to an array type, and a plain assignment copy
+            def b_acast(st, pr, t=t, sa=seed_a, sb=seed_b):
+                st(f"o := {t.lit(sa)};")
+                st("sl : []u8 = o;")
+                st(f"c := {t.name}.(sl);")
+                st("c[0] = 1;")
+                rb_all(pr, "o", sa)
+                st(f"o2 := {t.lit(sb)};")
+                st("e := o2;")
+                st("o2[0] = 3;")
+                rb_all(pr, "e", sb)
+            new("mutating_a_cast_copy", "copy_semantics", t, base_decls, b_acast)
         # --- sum types whose payload is t
         ename = f"E_{tn}"
         ed = base_decls + [f"{ename} :: enum {{ N, P: {t.name}, Q: u8 }};", guard_struct(f"GE_{tn}", ename)]
@@ -258,7 +292,52 @@ def gen_sites(tier, seed):
             pr(f"i64.(u8.(#unwrap(a[0], {ename}.Q)))", 11)
             pr(f"i64.(u8.(#unwrap(a[2], {ename}.Q)))", 13)
         new("variant_into_enum", "array_element", t, ed, b_enum_arr)
+    if accepted_pairs:
+        scalar_sites(new, guards, accepted_pairs)
     return sites
+
+
+def probe_pairs(work):
+    """which (destination, value) integer type pairs capy takes in `dest op= value` is asked from the compiler itself:
+    acceptance is not this property's subject, only what an accepted store does to its neighbours"""
+    names = ["u8", "i8", "u16", "i16", "u32", "i32", "u64", "i64"]
+    jobs = [(d, s_) for d in names for s_ in names if d != s_]
+
+    def one(p):
+        d, s_ = p
+        c = R.compile_capy(os.path.join(work, f"pp_{d}_{s_}"), {"main.capy": f"main :: () -> i32 {{\n    x : {d} = 1;\n    w : {s_} = 2;\n    x += w;\n    0\n}}\n"})
+        return p, c.accepted
+    return {p for p, ok in C.pmap(one, jobs) if ok}
+
+
+def scalar_sites(new, guards, accepted_pairs):
+    """scalar fields between guards written by plain and compound assignments whose right side has another (wider or
+    narrower, signed or unsigned) integer type, and through a ^mut pointer to the field"""
+    ints = [("u8", 8, False), ("i8", 8, True), ("u16", 16, False), ("i16", 16, True), ("u32", 32, False), ("i32", 32, True), ("u64", 64, False), ("i64", 64, True)]
+
+    def wrap(v, w, signed):
+        v &= (1 << w) - 1
+        return v - (1 << w) if signed and v >= 1 << (w - 1) else v
+    for dty, dw, dsg in ints:
+        gname = f"GS_{dty}"
+        decl = f"{gname} :: struct {{ g0: u8, obj: {dty}, g1: u8, g2: u8, g3: u64 }};"
+        for sty, sw, ssg in ints:
+            if (dty, sty) not in accepted_pairs:
+                continue
+            for op, fn in (("+=", lambda a, b: a + b), ("-=", lambda a, b: a - b), ("*=", lambda a, b: a * b), ("|=", lambda a, b: a | b)):
+                # only combinations the type checker takes: capy accepts `dest op= value` when the two have a common type
+                a0 = 5
+                b0 = 300 if sw >= 16 else 100
+                if ssg and op == "-=":
+                    b0 = -b0
+
+                def build(st, pr, gname=gname, dty=dty, sty=sty, op=op, a0=a0, b0=b0, dw=dw, dsg=dsg, fn=fn):
+                    st(f"s := {gname}.{{ g0 = {G0}, obj = {a0}, g1 = {G1}, g2 = {G2}, g3 = {G3} }};")
+                    st(f"w : {sty} = {b0};")
+                    st(f"s.obj {op} w;")
+                    guards(pr)
+                    pr("i64.(s.obj)" if dw < 64 or dsg else "i64.(s.obj & 0x7fffffffffffffff)", wrap(fn(a0, b0), dw, dsg) if dw < 64 or dsg else wrap(fn(a0, b0), dw, dsg) & 0x7fffffffffffffff)
+                new(f"compound_{op}_{sty}_into_{dty}", "struct_field_scalar", None, [decl], build)
 
 
 def run_batch(job):
@@ -290,7 +369,7 @@ def run(tier, seed):
     C.build_cli()
     C.build_rt()
     work = C.fresh_dir("C02")
-    sites = gen_sites(tier, seed)
+    sites = gen_sites(tier, seed, probe_pairs(work))
     per = 10
     # group sites of the same type together (shared declarations)
     jobs = [(i // per, sites[i:i + per], work) for i in range(0, len(sites), per)]
